@@ -4,7 +4,7 @@
    latestSyncedNode, so the reset-to-committed of OpenWith (fix 2077e08) always lands on genuine
    leaves and the re-link rebuilds the rest.  For the code before b260503 the statement is refuted
    (Crash/Refuted.v, tree_refuted: history).
-   With the proposed repair fixes/C03-aht-durable-reset.diff (c_ahtreset = true) the durable size of the
+   Since fix 0b488aa (ResetSize fsyncs the tree's commit log, c_ahtreset = RSync) the durable size of the
    tree's commit log IS latestSyncedNode, the size check of ahtree.OpenWith never fails and crash
    safety holds without the exception stated in Crash/Theorems.v. *)
 From V Require Import Crash.Storage Crash.StorageProofs Crash.Protocol Crash.RecordProofs Crash.AhtProofs
@@ -69,7 +69,7 @@ Record TInv (s : st) (h : list trec) : Prop := mkTInv {
   t_dur : c_ahtreset (s_cfg s) = RSync -> pending (ahc s) = [] /\ len (durable (ahc s)) = 12 * alatest s
 }.
 
-(* with the proposed durable ResetSize: nothing is pending on the tree's commit log and its durable
+(* with the durable ResetSize (fix 0b488aa): nothing is pending on the tree's commit log and its durable
    size is latestSyncedNode *)
 Definition CD (a : aht) : Prop := pending (a_c a) = [] /\ len (durable (a_c a)) = 12 * a_latest a.
 
@@ -338,7 +338,7 @@ Proof.
     + split; [exact T'|split; [lia|split; [exact IA'|auto]]].
 Qed.
 
-(* the size check of ahtree.OpenWith on a crash image, with the proposed repair *)
+(* the size check of ahtree.OpenWith on a crash image, since fix 0b488aa *)
 Lemma TInv_check nv s h d im :
   c_ahtreset (s_cfg s) = RSync -> Inv nv s h d -> TInv s h -> crash s im -> ~ aht_check_fails im.
 Proof.
@@ -454,7 +454,7 @@ Proof.
     split; [congruence|]. eauto.
 Qed.
 
-(* ================= with the proposed repair: recovery never fails ================= *)
+(* ================= since fix 0b488aa (c_ahtreset = RSync): recovery never fails ================= *)
 Theorem aht_check_never_fails c nv s im :
   c_prealloc c = false -> 0 < c_thld c -> c_ahtsync c = true -> c_ahtreset c = RSync ->
   reach c nv s -> crash s im -> ~ aht_check_fails im.
